@@ -958,3 +958,28 @@ def check_blocks_skool(out, case):
         if len(l) > 79 and not nowrap:
             fails.append(('skool-blocks-line-too-wide', 'line of %d chars: %r' % (len(l), l[:100])))
     return fails
+
+
+def closing_boundary_spec(line_width):
+    """Deterministic sweep for the sna2skool closing-brace fit test: comments that end with '}'
+    (so the closing is ' }' ...) whose last wrapped line takes every length around the comment
+    width, for groups of 1..3 instructions.  With the default instruction width (13) the comment
+    column is line_width - 23 wide; the sweep covers a window well beyond that, so it does not
+    depend on that figure being right."""
+    cw = line_width - 23
+    addr = 32768
+    groups = []
+    for n in (1, 2, 3):
+        for k in range(3, cw + 6):
+            if n == 1:
+                # single instruction: the text starts with '{' and ends with '}'
+                words = ['{' + 'a' * (k - 2) + '}'] if k % 2 else ['{ab', 'c' * max(1, k - 5) + '}']
+            else:
+                # n - 1 lines filled by one long word each, then a last line of length k
+                words = ['b' * (cw - 3) for _ in range(n - 1)] + (['w' * (k - 1) + '}'] if k % 2 else ['uv', 'w' * max(1, k - 4) + '}'])
+            instrs = [{'addr': addr + j, 'op': 'NOP', 'label': None} for j in range(n)]
+            addr += n
+            groups.append({'instrs': instrs, 'lines': [[words]] + [[[]] for _ in range(n - 1)], 'mid': []})
+    return {'cfg': {'line_width': line_width}, 'entries': [{
+        'ctl': 'c', 'addr': 32768, 'title': [['Closing', 'brace', 'boundary']], 'details': [], 'registers': [],
+        'start': [], 'end': [], 'groups': groups}]}
